@@ -31,6 +31,10 @@ where
     match compress(input) {
         Err(_) => "err".to_string(),
         Ok(c) => {
+            // a decompress call that FAILS after having produced some output precedes the round trip: state left behind by
+            // a rejected stream (seeded change C08-3: a thread-local scratch buffer cleared only on success) must not leak
+            let _ = decompress(&[0x10, 0x10, 0, 0, 0x00, 1, 2, 3]);
+            let _ = decompress(&[0x13, 0, 0, 0, 0x11, 0x10, 0, 0, 0x00, 1, 2, 3]);
             let rt = match decompress(&c) {
                 Err(_) => "rt:err".to_string(),
                 Ok(d) => {
